@@ -24,7 +24,9 @@ package dig
 //@   requires s != nil
 //@   ensures[C08:root-has-no-parent] r != nil && r.parentScope == nil
 //@   ensures[C08:root-of-root] s.parentScope == nil ==> r == s
+//@   ensures[C08:root-is-the-end-of-the-ancestor-chain] r == s.anc[s.nanc - 1]
 //@   loop for curr.parentScope != nil #1: invariant[C08:root-walk] curr != nil && (s.parentScope == nil ==> curr == s)
+//@   loop for curr.parentScope != nil #1: invariant[C08:root-walk-stays-on-the-chain] exists k int :: 0 <= k && k < s.nanc && curr == s.anc[k]
 
 //@ func (s0 *Scope) ancestors() (r)
 //@   allocates
@@ -809,8 +811,8 @@ package dig
 //@     && (is(s.gh.nodes[j].Wrapped, ptr(paramGroupedSlice)) ==> as(s.gh.nodes[j].Wrapped, ptr(paramGroupedSlice)) != nil && as(s.gh.nodes[j].Wrapped, ptr(paramGroupedSlice)).orders != nil)
 
 //@ func (s *Scope) Scope(name, opts) (child)
-//@   requires s != nil && graphNodesOK(s) && childrenLinked() && childListsSeparate() && graphsSeparate()
-//@   ensures[C08:tree-links-kept,C16:tree-links-kept] childrenLinked() && childListsSeparate()
+//@   requires s != nil && graphNodesOK(s) && treeInv()
+//@   ensures[C08:tree-links-kept,C16:tree-links-kept] childrenLinked() && childListsSeparate() && registriesSeparate()
 //@   ensures[C16:graph-stores-kept-separate,C05:graph-stores-kept-separate] graphsSeparate()
 //@   requires forall i int :: 0 <= i && i < len(opts) ==> opts[i] != nil
 //@   modifies Scope.childScopes, elems(*Scope), map(constructorNode.orders)
@@ -838,7 +840,7 @@ package dig
 //@   loop range s.gh.nodes #1: invariant[C16:orders-copied-so-far] forall j int :: 0 <= j && j < $i ==> orderOf(s.gh.nodes[j].Wrapped, child) == orderOf(s.gh.nodes[j].Wrapped, s)
 //@   loop range s.gh.nodes #1: invariant[C16:parents-orders-kept] forall j int :: 0 <= j && j < len(s.gh.nodes) ==> orderOf(s.gh.nodes[j].Wrapped, s) == old(orderOf(s.gh.nodes[j].Wrapped, s))
 //@   loop range s.gh.nodes #1: invariant[C16:stores-separate-while-copying] graphsSeparate()
-//@   loop range s.gh.nodes #1: invariant[C16:links-kept-while-copying] childrenLinked() && childListsSeparate()
+//@   loop range s.gh.nodes #1: invariant[C16:links-kept-while-copying] childrenLinked() && childListsSeparate() && registriesSeparate()
 //@   loop range s.gh.nodes #1: invariant[C16:child-not-yet-listed] child.parentScope == s && len(child.childScopes) == 0 && cap(child.childScopes) == 0 && s.childScopes == old(s.childScopes)
 //@   loop range s.gh.nodes #1: invariant fresh(child) && child != s && s.gh == old(s.gh) && s.gh.nodes == old(s.gh.nodes) && graphNodesOK(s)
 //@        && (forall j int :: 0 <= j && j < len(s.gh.nodes) ==> s.gh.nodes[j] == old(s.gh.nodes[j]))
@@ -902,7 +904,7 @@ package dig
 //@     && (forall a *graphHolder :: { a.nodes } allocated(a) ==> a.nodes.arr <= $alloc && (cap(a.nodes) > 0 ==> a.nodes.arr > 0))
 
 //@ func (s *Scope) newGraphNode(wrapped, orders) ()
-//@   requires s != nil && orders != nil && childrenLinked() && graphsSeparate()
+//@   requires s != nil && orders != nil && treeInv()
 //@   modifies graphHolder.nodes, elems(*graphNode), map(constructorNode.orders)
 //@   allocates
 //@   ensures[C16:node-appended-to-this-scopes-graph,C05:node-appended-to-this-scopes-graph,C08:node-appended-to-this-scopes-graph]
@@ -910,20 +912,26 @@ package dig
 //@        && orders[s] == old(len(s.gh.nodes))
 //@   ensures[C16:no-graph-loses-or-reorders-a-node] (forall g *graphHolder :: { g.nodes } existed(g) ==> len(g.nodes) >= old(len(g.nodes))) && (forall g *graphHolder, j int :: existed(g) && 0 <= j && j < old(len(g.nodes)) ==> g.nodes[j] == old(g.nodes[j]))
 //@   ensures[C16:shallower-scopes-untouched] forall y *Scope :: existed(y) && y != s && y.nanc <= s.nanc ==> y.gh.nodes == old(y.gh.nodes) && orders[y] == old(orders[y])
-//@   ensures[C16:graph-stores-stay-separate] graphsSeparate() && childrenLinked()
+//@   ensures[C16:graph-stores-stay-separate] treeInv()
 //@   ensures[C16:only-this-nodes-order-map-written] forall m map[*Scope]int :: existed(m) && m != orders ==> mapeq(m)
 //@   ensures[C03:adding-a-graph-node-runs-nothing] $nrun == old($nrun) && $ncb == old($ncb)
 //@   loop range s.childScopes #1: invariant[C16:own-node-stays-in-place] len(s.gh.nodes) == old(len(s.gh.nodes)) + 1 && s.gh.nodes[old(len(s.gh.nodes))] != nil
 //@        && s.gh.nodes[old(len(s.gh.nodes))].Wrapped == wrapped && orders[s] == old(len(s.gh.nodes))
 //@   loop range s.childScopes #1: invariant[C16:graphs-only-grow-so-far] (forall g *graphHolder :: { g.nodes } existed(g) ==> len(g.nodes) >= old(len(g.nodes))) && (forall g *graphHolder, j int :: existed(g) && 0 <= j && j < old(len(g.nodes)) ==> g.nodes[j] == old(g.nodes[j]))
 //@   loop range s.childScopes #1: invariant[C16:shallower-scopes-untouched-so-far] forall y *Scope :: existed(y) && y != s && y.nanc <= s.nanc ==> y.gh.nodes == old(y.gh.nodes) && orders[y] == old(orders[y])
-//@   loop range s.childScopes #1: invariant[C16:stores-separate-so-far] graphsSeparate()
+//@   loop range s.childScopes #1: invariant[C16:stores-separate-so-far] graphsSeparate() && childListsSeparate() && registriesSeparate()
 //@   loop range s.childScopes #1: invariant[C16:children-linked-so-far] childrenLinked() && s.childScopes == old(s.childScopes)
 //@   loop range s.childScopes #1: invariant[C16:other-order-maps-kept-so-far] forall m map[*Scope]int :: existed(m) && m != orders ==> mapeq(m)
 //@   site call (*dig.Scope).newGraphNode #1: assert[C16:node-passed-on-to-every-child,C05:node-passed-on-to-every-child,C08:node-passed-on-to-every-child] $recv == s.childScopes[$i] && $arg0 == wrapped && $arg1 == orders
 
 // ---------------------------------------------------------------------------
 // registration: Provide (C06, C08, C09, C05, C16, C18)
+
+// every scope has its own registries
+//@ pure func registriesSeparate() Bool = (forall a *Scope, b *Scope :: { a.providers, b.providers } allocated(a) && allocated(b) && a != b ==> a.providers != b.providers)
+//@     && (forall a *Scope :: { a.providers } allocated(a) ==> a.providers != nil && a.providers <= $alloc)
+
+//@ pure func treeInv() Bool = childrenLinked() && childListsSeparate() && graphsSeparate() && registriesSeparate()
 
 // shape contracts of the signature parsers (what the rest of the code relies on)
 //@ func newParamList(ctype, c) (pl, err)
@@ -933,7 +941,7 @@ package dig
 //@   allocates
 //@   ensures err == nil ==> pl.ctype == ctype && wfParamList(pl)
 //@   ensures (forall g *graphHolder :: { g.nodes } existed(g) ==> len(g.nodes) >= old(len(g.nodes))) && (forall g *graphHolder, j int :: existed(g) && 0 <= j && j < old(len(g.nodes)) ==> g.nodes[j] == old(g.nodes[j]))
-//@   ensures graphsSeparate() && childrenLinked()
+//@   ensures treeInv()
 //@   ensures forall m map[*Scope]int :: existed(m) ==> mapeq(m)
 
 //@ func newResultList(ctype, opts) (rl, err)
@@ -941,27 +949,29 @@ package dig
 //@   requires ctype != nil && kind(ctype) == kFunc()
 //@   allocates
 //@   ensures err == nil ==> rl.ctype == ctype && wfResultList(rl) && noNestedLists(rl) && len(rl.resultIndexes) == numOut(ctype)
-//@   ensures graphsSeparate() && childrenLinked()
+//@   ensures treeInv()
 
 //@ func (pl paramList) DotParam() (r)
 //@   trusted
 //@   allocates
+//@   ensures treeInv()
 //@   ensures (fresh(r) || len(r) == 0) && (forall i int :: 0 <= i && i < len(r) ==> r[i] != nil && fresh(r[i]) && r[i].Node != nil && fresh(r[i].Node))
 
 //@ func (rl resultList) DotResult() (r)
 //@   trusted
 //@   allocates
+//@   ensures treeInv()
 //@   ensures (fresh(r) || len(r) == 0) && (forall i int :: 0 <= i && i < len(r) ==> r[i] != nil && fresh(r[i]) && r[i].Node != nil && fresh(r[i].Node))
 
 //@ func newConstructorNode(ctor, s, origS, opts) (n, err)
-//@   requires ctor != nil && kind(typeOf(ctor)) == kFunc() && s != nil && origS != nil && childrenLinked() && graphsSeparate()
+//@   requires ctor != nil && kind(typeOf(ctor)) == kFunc() && s != nil && origS != nil && treeInv()
 //@   modifies graphHolder.nodes, elems(*graphNode), map(constructorNode.orders)
 //@   allocates
 //@   ensures[C08:node-knows-its-home-and-origin] err == nil ==> n != nil && fresh(n) && n.s == s && n.origS == origS && !n.called && n.ctor == ctor && n.callback == opts.Callback
 //@   ensures[C18:node-id-is-the-code-pointer] err == nil ==> n.id == codePtr(valueOf(ctor))
 //@   ensures[C16:new-node-is-in-its-home-graph,C05:new-node-is-in-its-home-graph] err == nil ==> len(s.gh.nodes) >= old(len(s.gh.nodes)) + 1 && n.orders != nil && fresh(n.orders)
 //@   ensures[C06:building-a-node-only-appends-graph-nodes] (forall g *graphHolder :: { g.nodes } existed(g) ==> len(g.nodes) >= old(len(g.nodes))) && (forall g *graphHolder, j int :: existed(g) && 0 <= j && j < old(len(g.nodes)) ==> g.nodes[j] == old(g.nodes[j]))
-//@   ensures[C06:tree-and-stores-kept] graphsSeparate() && childrenLinked()
+//@   ensures[C06:tree-and-stores-kept] treeInv()
 //@   ensures[C06:existing-order-maps-kept] forall m map[*Scope]int :: existed(m) ==> mapeq(m)
 //@   ensures[C03:building-a-node-runs-nothing] $nrun == old($nrun) && $ncb == old($ncb)
 
@@ -969,17 +979,75 @@ package dig
 //@ pure func notAChildList(d []*Scope) Bool = d.arr == 0 || (forall y *Scope :: { y.childScopes } allocated(y) ==> y.childScopes.arr != d.arr)
 
 //@ func (s *Scope) appendSubscopes(dest0) (r)
-//@   requires s != nil && childrenLinked() && childListsSeparate() && notAChildList(dest0)
+//@   requires s != nil && treeInv() && notAChildList(dest0)
 //@   modifies elems(*Scope)
 //@   allocates
 //@   ensures[C06:subtree-list-starts-with-the-scope] len(r) >= len(dest0) + 1 && r[len(dest0)] == s
 //@   ensures[C06:subtree-list-keeps-its-prefix] forall i int :: 0 <= i && i < len(dest0) ==> r[i] == old(dest0[i])
 //@   ensures[C06:subtree-list-holds-scopes] (forall i int :: 0 <= i && i < len(dest0) ==> old(dest0[i]) != nil && old(allocated(dest0[i]))) ==> (forall i int :: 0 <= i && i < len(r) ==> r[i] != nil && allocated(r[i]))
 //@   ensures[C06:listing-writes-only-the-list] keptExcept(dest0.arr, elems(ptr(Scope))) && (fresh(r) || r.arr == dest0.arr) && notAChildList(r)
-//@   ensures[C06:listing-keeps-the-tree] childrenLinked() && childListsSeparate()
+//@   ensures[C06:listing-keeps-the-tree] treeInv()
+//@   ensures[C06:listing-creates-no-scope] forall x *Scope :: allocated(x) ==> existed(x)
 //@   loop range s.childScopes #1: invariant[C06:subtree-list-so-far] len(dest) >= len(dest0) + 1 && dest[len(dest0)] == s
 //@        && (forall i int :: 0 <= i && i < len(dest0) ==> dest[i] == old(dest0[i]))
 //@   loop range s.childScopes #1: invariant[C06:subtree-list-holds-scopes-so-far] (forall i int :: 0 <= i && i < len(dest0) ==> old(dest0[i]) != nil && old(allocated(dest0[i]))) ==> (forall i int :: 0 <= i && i < len(dest) ==> dest[i] != nil && allocated(dest[i]))
 //@   loop range s.childScopes #1: invariant[C06:listing-writes-only-the-list-so-far] keptExcept(dest0.arr, elems(ptr(Scope))) && (fresh(dest) || dest.arr == dest0.arr) && notAChildList(dest)
-//@   loop range s.childScopes #1: invariant[C06:listing-keeps-the-tree-so-far] childrenLinked() && childListsSeparate() && s.childScopes == old(s.childScopes)
+//@   loop range s.childScopes #1: invariant[C06:listing-keeps-the-tree-so-far] treeInv() && s.childScopes == old(s.childScopes)
+//@   loop range s.childScopes #1: invariant[C06:no-scope-created-so-far] forall x *Scope :: allocated(x) ==> existed(x)
 //@   site call (*dig.Scope).appendSubscopes #1: assert[C06:every-child-subtree-listed] $recv == s.childScopes[$i] && $arg0 == dest
+
+//@ func (s *Scope) findAndValidateResults(rl) (keys, err)
+//@   trusted
+//@   requires s != nil
+//@   allocates
+//@   ensures err == nil ==> keys != nil && fresh(keys)
+//@   ensures treeInv()
+
+//@ func (s *Scope) cycleDetectedError(cycle) (r)
+//@   trusted
+//@   requires s != nil
+//@   allocates
+//@   ensures is(r, errCycleDetected) && as(r, errCycleDetected).scope == s
+//@   ensures treeInv()
+
+//@ func (s0 *Scope) provide(ctor, opts) (err)
+//@   requires s0 != nil && ctor != nil && kind(typeOf(ctor)) == kFunc()
+//@   requires treeInv()
+//@   modifies map(Scope.providers), Scope.nodes, elems(*constructorNode), Scope.isVerifiedAcyclic, graphHolder.nodes, graphHolder.snap, elems(*graphNode), map(constructorNode.orders), elems(*Scope)
+//@   modifies ProvideInfo.ID, ProvideInfo.Inputs, ProvideInfo.Outputs
+//@   allocates
+//@   let tgt = opts.Exported ? s0.anc[s0.nanc - 1] : s0
+//@   let all = ret(appendSubscopes_1, 0)
+//@   ensures[C03:registering-runs-nothing,C17:registering-runs-nothing] $nrun == old($nrun) && $ncb == old($ncb) && $ev == old($ev)
+//@   ensures[C06:rejected-provide-keeps-every-provider-list,C09:rejected-provide-keeps-every-provider-list] err != nil ==> (forall x *Scope, k key :: existed(x) ==> x.providers[k] == old(x.providers[k]))
+//@   ensures[C06:rejected-provide-keeps-every-node-list] err != nil ==> (forall x *Scope :: existed(x) ==> x.nodes == old(x.nodes))
+//@   ensures[C06:rejected-provide-rolls-back-every-listed-graph,C05:rejected-provide-rolls-back-every-listed-graph] err != nil && reached(appendSubscopes_1) ==> (forall k int :: 0 <= k && k < len(all) ==> (let g = all[k].gh in len(g.nodes) == old(len(g.nodes))))
+//@   ensures[C06:no-graph-loses-a-node] forall g *graphHolder, j int :: existed(g) && 0 <= j && j < old(len(g.nodes)) && j < len(g.nodes) ==> g.nodes[j] == old(g.nodes[j])
+//@   ensures[C06:rejected-provide-leaves-the-info-untouched,C18:rejected-provide-leaves-the-info-untouched] err != nil && opts.Info != nil ==> opts.Info.ID == old(opts.Info.ID) && opts.Info.Inputs == old(opts.Info.Inputs) && opts.Info.Outputs == old(opts.Info.Outputs)
+//@   let prefixes = forall g *graphHolder, j int :: existed(g) && 0 <= j && j < old(len(g.nodes)) && j < len(g.nodes) ==> g.nodes[j] == old(g.nodes[j])
+//@   let othersKept = forall x *Scope, k key :: existed(x) && x != tgt ==> x.providers[k] == old(x.providers[k])
+//@   let registered = (forall k key :: k in oldProviders ==> oldProviders[k] == old(tgt.providers[k])) && (forall k key :: !(k in oldProviders) ==> tgt.providers[k] == old(tgt.providers[k]))
+//@   loop range allScopes #1: invariant[C06:snapshots-taken-so-far] forall k int :: 0 <= k && k < $i ==> all[k].gh.snap == len(all[k].gh.nodes) && all[k].gh.snap >= 0
+//@   loop range allScopes #1: invariant[C06:nothing-else-touched-while-snapshotting] kept(graphHolder.nodes, map(Scope.providers), Scope.nodes) && allScopes == all && treeInv() && tgt != nil
+//@        && (forall k int :: 0 <= k && k < len(all) ==> all[k] != nil && allocated(all[k]))
+//@   deferloop range allScopes #1: binds s == allScopes[$i]
+//@   site call dig.newConstructorNode #1: assert[C08:node-built-for-the-target-scope,C09:node-built-for-the-target-scope] $arg1 == tgt && $arg2 == s0 && $arg0 == ctor
+//@   site call (*dig.Scope).findAndValidateResults #1: assert[C09:results-validated-against-the-target-scope,C08:results-validated-against-the-target-scope] $recv == tgt
+//@   deferloop range allScopes #1: invariant[C06:each-listed-graph-pending-or-rolled-back,C05:each-listed-graph-pending-or-rolled-back] err != nil ==> (forall k int :: 0 <= k && k < len(all) ==>
+//@        (let g = all[k].gh in (g.snap == 0 - 1 ? len(g.nodes) == old(len(g.nodes)) : (g.snap == old(len(g.nodes)) && g.snap >= 0 && len(g.nodes) >= old(len(g.nodes))))))
+//@   deferloop range allScopes #1: invariant[C06:rollbacks-done-so-far,C05:rollbacks-done-so-far] err != nil ==> (forall k int :: $j <= k && k < len(all) ==> all[k].gh.snap == 0 - 1)
+//@   deferloop range allScopes #1: invariant[C06:next-graph-pending-or-rolled-back] err != nil && 0 < $j && $j <= len(all) ==>
+//@        (let g = all[$j - 1].gh in (g.snap == 0 - 1 ? len(g.nodes) == old(len(g.nodes)) : (g.snap == old(len(g.nodes)) && g.snap >= 0 && len(g.nodes) >= old(len(g.nodes)))))
+//@   deferloop range allScopes #1: invariant[C06:rollbacks-keep-earlier-nodes] prefixes
+//@   deferloop range allScopes #1: invariant[C06:rollbacks-keep-the-stores-separate] graphsSeparate()
+//@   deferloop range allScopes #1: invariant[C06:rollbacks-keep-the-list] allScopes == all && (forall k int :: 0 <= k && k < len(all) ==> all[k] != nil && allocated(all[k]))
+//@   loop range params #1: invariant[C06:info-filling-keeps-the-tree] treeInv()
+//@   loop range results #1: invariant[C06:info-filling-keeps-the-tree-2] treeInv()
+//@   loop range keys #1: invariant[C06:old-providers-remembered] (forall k key :: $seen[k] ==> k in oldProviders && oldProviders[k] == old(tgt.providers[k]))
+//@        && (forall k key :: !$seen[k] ==> !(k in oldProviders) && tgt.providers[k] == old(tgt.providers[k]))
+//@   loop range keys #1: invariant[C06:other-registries-untouched] othersKept && fresh(oldProviders) && treeInv()
+//@   loop range allScopes #2: invariant[C06:registration-still-undoable] registered && othersKept && fresh(oldProviders) && treeInv() && allScopes == all
+//@   loop range allScopes #2: invariant[C06:graphs-untouched-by-the-cycle-check] sameSince(findAndValidateResults_1, graphHolder.nodes, graphHolder.snap, Scope.nodes)
+//@   loop range oldProviders #1: invariant[C06:providers-restored-so-far] (forall k key :: $seen[k] ==> tgt.providers[k] == old(tgt.providers[k]))
+//@        && (forall k key :: !(k in oldProviders) ==> tgt.providers[k] == old(tgt.providers[k])) && (forall k key :: k in oldProviders ==> oldProviders[k] == old(tgt.providers[k]))
+//@   loop range oldProviders #1: invariant[C06:restoring-touches-only-the-target] othersKept && fresh(oldProviders) && treeInv()
